@@ -55,12 +55,8 @@ Print Assumptions C04_sized_wellformed.
    (OPT pseudo-record last).  Whole records only; once a record is dropped no
    later record is written; when the internal flag t is false nothing was
    dropped, and the TC bit on the wire is [tc m || t] (flag1).
-   Full statement wanted (byte level, not yet proved): additionally
-     exists m', strict_decode e = Some m' /\ header_eq m m' /\
-       rrs m' = firstn (ac+nc+dc) (rrs_on_wire m).
-   The strict decoder is evaluated on the implementation's bytes in every
-   run of the check instead. *)
-Theorem C04_sized_wellformed_partial : forall m size e,
+   The byte-level statement (strict_decode) is C04_sized_wellformed above. *)
+Theorem C04_sized_shape : forall m size e,
   wf_name (qname m) = true -> encode_sized m size = Ok e ->
   lenN e <= size /\
   exists qb k0 recs k ac nc dc t,
@@ -78,7 +74,7 @@ Theorem C04_sized_wellformed_partial : forall m size e,
     ((N.to_nat ac < length (answer m))%nat -> nc = 0 /\ dc = 0) /\
     ((N.to_nat nc < length (nameserver m))%nat -> dc = 0).
 Proof. exact sized_wellformed_partial. Qed.
-Check C04_sized_wellformed_partial : forall m size e,
+Check C04_sized_shape : forall m size e,
   wf_name (qname m) = true -> encode_sized m size = Ok e ->
   lenN e <= size /\
   exists qb k0 recs k ac nc dc t,
@@ -95,7 +91,7 @@ Check C04_sized_wellformed_partial : forall m size e,
                   N.to_nat dc = length adds) /\
     ((N.to_nat ac < length (answer m))%nat -> nc = 0 /\ dc = 0) /\
     ((N.to_nat nc < length (nameserver m))%nat -> dc = 0).
-Print Assumptions C04_sized_wellformed_partial.
+Print Assumptions C04_sized_shape.
 
 (* Truncation is maximal: a section stops only at a record that does not fit
    (the record at index c exists, and written after the kept ones it would
